@@ -130,6 +130,8 @@ add('microsecond|microseconds', s_ * num(F(10) ** -6))
 add('millisecond|milliseconds', s_ * num(F(10) ** -3))
 add('min|mins|minute|minutes', minute)
 add('hr|hrs|hour|hours', hr)
+add('d|day|days', Q(86400, D(T=1)))
+add('wk|week|weeks', Q(604800, D(T=1)))
 add('kg|kilogram|kilograms', kg)
 add('g|gram|grams', kg * num(F(1, 1000)))
 add('slug|slugs', slug)
@@ -175,6 +177,18 @@ add('ac|acre|acres', ft ** 2 * num(43560))
 add('L|l|liter|liters|litre|litres', m ** 3 * num(F(1, 1000)))
 add('mL|ml|milliliter|milliliters|millilitre|millilitres', m ** 3 * num(F(10) ** -6))
 add('kn|knot|knots', nmi / hr)
+# further common units a maintainer might add (NIST SP 811 values), so that a new unit is judged rather than left undecided
+add('Å|angstrom|angstroms', m * num(F(10) ** -10))
+add('t|tonne|tonnes', kg * num(1000))
+add('oz|ounce|ounces', lbm * num(F(1, 16)))
+add('kgf', kg * g0)
+add('kip|kips', lbf * num(1000))
+add('ksi', lbf * num(1000) / inch ** 2)
+add('Torr|torr', Pa * num(F(101325, 760)))
+add('mmHg', Pa * num(F('133.322387415')))
+add('hp', ft * lbf / s_ * num(550))
+add('gal', inch ** 3 * num(231))
+add('mph', mi / hr)
 byte = bit * num(8)
 add('b|bit|bits', bit)
 add('B|byte|bytes', byte)
